@@ -338,8 +338,22 @@ func (x *Exec) schedule(main *G) {
 		} else if x.schedNondet && len(run) > 1 {
 			next = run[x.chooseFree(len(run), "sched")]
 		} else {
-			// prefer the goroutine that was running; else lowest id non-main first
+			// default: non-main goroutines first, lowest id first. With a delay
+			// budget, deviating from the default costs one unit (delay bounding).
 			next = x.pickDefault(run, main)
+			if x.preemptBudget > 0 && len(run) > 1 {
+				k := x.chooseFree(len(run), "delay")
+				if k > 0 {
+					x.preemptBudget--
+					alt := make([]*G, 0, len(run))
+					for _, g := range run {
+						if g != next {
+							alt = append(alt, g)
+						}
+					}
+					next = alt[k-1]
+				}
+			}
 		}
 		x.forceNext = nil
 		x.runG(next)
